@@ -84,7 +84,7 @@ var kinds = []kindT{
 		parseUint, func(s string) any { v, _ := strconv.ParseUint(s, 0, 64); return v }},
 	{"uint64", reflect.TypeOf(uint64(0)), [3][4]string{{"41", "42", "43", "44"}, {"18446744073709551615", "18446744073709551614", "18446744073709551613", "1"}, {"", "", "43", "44"}},
 		parseUint, func(s string) any { v, _ := strconv.ParseUint(s, 0, 64); return v }},
-	{"string", reflect.TypeOf(""), [3][4]string{{"cli-${HOME}-text", "env-${PATH}-text", "json-${HOME}-${PATH}-text", "default-$HOME-text"}, {"-x=y z", "a\"b\\c", "jé\n", "d=,"}, {"", "", "json-text", "default-text"}},
+	{"string", reflect.TypeOf(""), [3][4]string{{"cli-${HOME}-text", "env-${PATH}-text", "json-${HOME}-${PATH}-text", "default-$HOME-text"}, {"-x=y z", "a\"b\\c=d=e=", "jé\n", "d=,"}, {"", "", "json-text", "default-text"}},
 		func(s string) (any, error) { return s, nil }, func(s string) any { return s }},
 	{"float64", reflect.TypeOf(float64(0)), [3][4]string{{"1.5", "2.5", "3.5", "4.5"}, {"1e308", "-0", "-1e-300", "0x1p-2"}, {"", "", "3.5", "4.5"}},
 		func(s string) (any, error) {
